@@ -7,7 +7,7 @@ import jax.numpy as jnp
 
 from ..common import Check, MachineryError
 from .. import tlc
-from genjax.state import state, save, namespace
+from genjax.state import state, save, namespace, tag_state
 from genjax.pjax import modular_vmap, seed
 
 
@@ -15,7 +15,7 @@ def canon(p):
     def st(s):
         k = s["k"]
         if k == "save":
-            return f"save({s['name']}={s['c']})"
+            return f"save({s['name']}={s['c']}" + (f",{s['d']}" if s.get("d") else "") + ")"
         if k == "ns":
             return f"ns[{s['ns']}](" + canon(s["body"]) + ")"
         if k in ("scan", "vmap"):
@@ -32,8 +32,13 @@ def build(prog, vmap_kind="vmap"):
             k = s["k"]
             if k == "save":
                 val = x * 0 + s["c"] + sum((10 ** (j + 1)) * i for j, i in enumerate(idxs))
-                out = save(**{s["name"]: val})
-                total = total + out[s["name"]]
+                if s.get("d"):
+                    # two values under one name: the first depends on the enclosing loops, the second is a constant
+                    a, b = tag_state(val, jnp.asarray(float(s["d"])), name=s["name"])
+                    total = total + a + b
+                else:
+                    out = save(**{s["name"]: val})
+                    total = total + out[s["name"]]
             elif k == "ns":
                 total = total + namespace(lambda: run(s["body"], idxs, x), s["ns"])()
             elif k == "call":
@@ -58,6 +63,9 @@ def flatten(d, pre=()):
     for k, v in d.items():
         if isinstance(v, dict):
             out.update(flatten(v, pre + (k,)))
+        elif isinstance(v, (tuple, list)):
+            for i, w in enumerate(v):
+                out[pre + (k, f"#{i}")] = np.asarray(w)
         else:
             out[pre + (k,)] = np.asarray(v)
     return out
@@ -78,14 +86,26 @@ def run(tier, argv):
     for row in sorted(table, key=lambda r: canon(r["prog"])):
         prog = row["prog"]
         name = canon(prog)
-        want = {tuple(e["path"]): np.asarray(e["val"], dtype=np.float32) for e in row["expect"]}
-        mixed = {tuple(e["path"]): ("scan" in e["kinds"] and "vmap" in e["kinds"]) for e in row["expect"]}
+        want, mixed, consts = {}, {}, {}
+        for e in row["expect"]:
+            q = tuple(e["path"]) + (("#0",) if e["second"] else ())
+            want[q] = np.asarray(e["val"], dtype=np.float32)
+            mixed[q] = "scan" in e["kinds"] and "vmap" in e["kinds"]
+            if e["second"]:
+                consts[tuple(e["path"]) + ("#1",)] = float(e["second"])
         for vk in ("vmap", "modular_vmap"):
             if vk == "modular_vmap" and "vmap" not in name:
                 continue
             f = build(prog, vk)
             x = jnp.asarray(0.0)
-            plain = np.asarray(f(x))
+            try:
+                plain = np.asarray(f(x))
+            except Exception as ex:
+                ck = f"state|{name}|{vk}|plain"
+                chk.case(ck)
+                chk.violation(ck, f"the function with its save / tag_state calls raised without any state wrapper: {type(ex).__name__}: "
+                              f"{str(ex).splitlines()[0][:140] if str(ex) else ''}", {"prog": prog})
+                continue
             variants = {
                 "eager": lambda: state(f)(x),
                 "jit": lambda: jax.jit(state(f))(x),
@@ -108,6 +128,13 @@ def run(tier, argv):
                     bad = []
                     if not np.array_equal(np.asarray(out), plain):
                         bad.append(f"state(f) changed the result: {np.asarray(out)} vs {plain}")
+                    for q, d in consts.items():
+                        # the loop-independent second value: collected as it is or broadcast, never anything else
+                        if q not in got:
+                            bad.append(f"second tagged value {'/'.join(q)} was not collected")
+                        elif not np.all(got[q] == d):
+                            bad.append(f"second tagged value {'/'.join(q)} = {got[q].tolist()} expected the constant {d}")
+                        got.pop(q, None)
                     if set(got) != set(want):
                         bad.append(f"collected names {sorted('/'.join(k) for k in got)} expected {sorted('/'.join(k) for k in want)}")
                     else:
